@@ -10,9 +10,12 @@ import (
 	"sort"
 	"strconv"
 	"strings"
+	"testing"
+	"time"
 
 	"github.com/pilosa/pilosa"
 	"github.com/pilosa/pilosa/ctl"
+	"github.com/pilosa/pilosa/server"
 	"github.com/pilosa/pilosa/test"
 )
 
@@ -109,33 +112,55 @@ func (u *ckUniverse) writeLog(dataDir string) error {
 
 // env is one in-process server.
 type env struct {
-	cmd  *test.Command
+	cmd   *test.Command   // the coordinator (primary translate store); the commands talk to it
+	nodes test.Cluster
 	tf   *pilosa.TranslateFile
 	ck   *ckUniverse
 	host string
 	dir  string // scratch for csv files
 }
 
-func startEnv(seed int64, slots int) (*env, error) {
-	m := test.NewCommandNode(true)
-	m.Config.Cluster.Disabled = true
-	m.Config.Metric.Diagnostics = false
-	m.Config.Translation.MapSize = 512 << 20
-	// The data directory goes to memory-backed storage when there is one: creating an
-	// index or a field syncs several files, which dominates the run on a loaded disk, and
-	// the property is not about durability.
-	if d, err := os.MkdirTemp("/dev/shm", "verif-clib-"); err == nil {
-		os.RemoveAll(m.Config.DataDir)
-		m.Config.DataDir = d
+func startEnv(tb testing.TB, seed int64, slots, nodes int) (*env, error) {
+	var cl test.Cluster
+	if nodes <= 1 {
+		m := test.NewCommandNode(true)
+		m.Config.Cluster.Disabled = true
+		cl = test.Cluster{m}
+	} else {
+		// partitions are dealt round-robin: the export has to fetch every shard from the
+		// node that owns it, the import has to route every shard to its owner
+		cl = test.MustNewCluster(tb, nodes, []server.CommandOption{
+			server.OptCommandServerOptions(pilosa.OptServerClusterHasher(&test.ModHasher{}))})
 	}
-	e := &env{cmd: m, ck: buildCK(seed)}
+	e := &env{cmd: cl[0], nodes: cl, ck: buildCK(seed)}
 	e.ck.place(slots)
-	if err := e.ck.writeLog(m.Config.DataDir); err != nil {
+	for i, m := range cl {
+		m.Config.Metric.Diagnostics = false
+		m.Config.Translation.MapSize = 512 << 20
+		// The data directory goes to memory-backed storage when there is one: creating an
+		// index or a field syncs several files, which dominates the run on a loaded disk,
+		// and the property is not about durability.
+		if d, err := os.MkdirTemp("/dev/shm", "verif-clib-"); err == nil {
+			if id, err := os.ReadFile(filepath.Join(m.Config.DataDir, ".id")); err == nil {
+				os.WriteFile(filepath.Join(d, ".id"), id, 0o600)
+			}
+			os.RemoveAll(m.Config.DataDir)
+			m.Config.DataDir = d
+		}
+		if i == 0 {
+			if err := e.ck.writeLog(m.Config.DataDir); err != nil {
+				return nil, err
+			}
+		}
+	}
+	if nodes <= 1 {
+		if err := cl[0].Start(); err != nil {
+			return nil, err
+		}
+	} else if err := cl.Start(); err != nil {
 		return nil, err
 	}
-	if err := m.Start(); err != nil {
-		return nil, err
-	}
+	m := cl[0]
 	e.tf = pilosa.VerifDurTranslateFile(m.Server.Holder())
 	e.host = m.API.Node().URI.HostPort()
 	d, err := os.MkdirTemp("", "clib-csv-")
@@ -164,8 +189,8 @@ func startEnv(seed int64, slots int) (*env, error) {
 }
 
 func (e *env) close() {
-	if e.cmd != nil {
-		e.cmd.Close()
+	for _, m := range e.nodes {
+		m.Close()
 	}
 	if e.dir != "" {
 		os.RemoveAll(e.dir)
@@ -232,11 +257,69 @@ func (e *env) importBits(index, field string, rowKeyed, colKeyed bool, bits []cb
 		r.ColumnIDs = append(r.ColumnIDs, b.colID)
 	}
 	for _, r := range byShard {
-		if err := e.cmd.API.Import(ctx, r, opts...); err != nil {
+		owner := e.cmd
+		if len(e.nodes) > 1 {
+			ns, err := e.cmd.API.ShardNodes(ctx, index, r.Shard)
+			if err != nil || len(ns) == 0 {
+				return fmt.Errorf("shard nodes: %v", err)
+			}
+			for _, m := range e.nodes {
+				if m.API.Node().ID == ns[0].ID {
+					owner = m
+				}
+			}
+		}
+		if err := owner.API.Import(ctx, r, opts...); err != nil {
 			return err
 		}
 	}
 	return nil
+}
+
+// settle waits until every node's translate store has caught up with the primary's
+// (replication is asynchronous; an export served by a lagging node would print "" for a
+// key it has not heard of yet, which is C24's business, not this property's).
+func (e *env) settle(index, field string) error {
+	if len(e.nodes) == 1 {
+		return nil
+	}
+	want := pilosa.VerifTranslateSize(e.tf)
+	deadline := time.Now().Add(10 * time.Second)
+	for _, m := range e.nodes[1:] {
+		t := pilosa.VerifDurTranslateFile(m.Server.Holder())
+		for pilosa.VerifTranslateSize(t) < want {
+			if time.Now().After(deadline) {
+				return fmt.Errorf("translate replication did not catch up (%d < %d)", pilosa.VerifTranslateSize(t), want)
+			}
+			time.Sleep(2 * time.Millisecond)
+		}
+	}
+	// every node must have heard of every shard of the field (shard creation is broadcast
+	// with a 50 ms patience; the commands ask one node for the shard range)
+	for {
+		var first string
+		same := true
+		for i, m := range e.nodes {
+			f := m.Server.Holder().Field(index, field)
+			if f == nil {
+				same = false
+				break
+			}
+			s := fmt.Sprint(f.AvailableShards().Slice())
+			if i == 0 {
+				first = s
+			} else if s != first {
+				same = false
+			}
+		}
+		if same {
+			return nil
+		}
+		if time.Now().After(deadline) {
+			return fmt.Errorf("the nodes do not agree on the shards of %s/%s", index, field)
+		}
+		time.Sleep(2 * time.Millisecond)
+	}
 }
 
 // records is a multiset of (row string, column string).
@@ -309,9 +392,13 @@ func (e *env) readField(index, field string, rowKeyed, colKeyed bool, probe []ui
 	if !ok {
 		return nil, fmt.Errorf("Rows(): unexpected result %T", resp.Results[0])
 	}
-	f := e.cmd.Server.Holder().Field(index, field)
-	if f == nil {
-		return nil, fmt.Errorf("field %s/%s not found", index, field)
+	var fs []*pilosa.Field
+	for _, m := range e.nodes {
+		f := m.Server.Holder().Field(index, field)
+		if f == nil {
+			return nil, fmt.Errorf("field %s/%s not found on a node", index, field)
+		}
+		fs = append(fs, f)
 	}
 	ids := ri.Rows
 	names := make([]string, len(ids))
@@ -349,17 +436,24 @@ func (e *env) readField(index, field string, rowKeyed, colKeyed bool, probe []ui
 	}
 	byRow := map[uint64][]string{}
 	for i, id := range ids {
-		row, err := f.Row(id)
-		if err != nil {
-			return nil, err
-		}
-		for _, c := range row.Columns() {
-			cs, err := colName(c)
+		seen := map[uint64]bool{}
+		for _, f := range fs { // every node holds its own shards of the row
+			row, err := f.Row(id)
 			if err != nil {
 				return nil, err
 			}
-			byRow[id] = append(byRow[id], cs)
-			st.bits.add(names[i], cs)
+			for _, c := range row.Columns() {
+				if seen[c] {
+					continue
+				}
+				seen[c] = true
+				cs, err := colName(c)
+				if err != nil {
+					return nil, err
+				}
+				byRow[id] = append(byRow[id], cs)
+				st.bits.add(names[i], cs)
+			}
 		}
 	}
 	if !rowKeyed {
